@@ -50,7 +50,9 @@ MANIFEST = {
              "object); the loop over frames as a fold on an immutable input (locality of write-back, every frame sees the original input "
              "logarithmized exactly once, composition of per-frame statements into the whole-span statement); plan dates handed over as "
              "collections in any order or as stepped / backward / context-dependent Spans register exactly the grid dates (the plan stream sends "
-             "the form actually used to the model); the inverse used by the model's filter is a checked inverse."),
+             "the form actually used to the model); the inverse used by the model's filter is a checked inverse; "
+             "method spellings resolve through one table (aliases are one request) and output variant k of a multi-variant run reads model "
+             "variant k and data variant min(k, last) (variant locality; multi-variant planned simulations are judged variant by variant)."),
     "design": "7/C07",
     "note": ("Not covered by theorems: IEEE rounding, numpy.linalg.inv, the first-order solution itself (C01), Newton convergence of stacked_time "
              "(the harness sets step_tolerance=inf so that the residual norm alone decides). Mixed anticipated+unanticipated plans and frames "
@@ -143,11 +145,10 @@ def model_source(spec, multi=False) -> str:
     lines = ["!transition_variables", "    " + ", ".join(spec["names"])]
     if logs:
         lines += ["!log-variables", "    " + ", ".join(logs)]
-    lines += ["!transition_shocks", "    " + ", ".join("e" + v for v in spec["names"]), "!transition_equations"]
+    lines += ["!transition_shocks", "    " + ", ".join("e" + v for v in spec["names"])]
     if pv:
         lines += ["!parameters", "    p0"]
-        lines[lines.index("!transition_equations"):] = []
-        lines += ["!transition_equations"]
+    lines += ["!transition_equations"]
     for ei, e in enumerate(spec["eqs"]):
         rhs = " + ".join((f"p0*{ref(t[1], t[2])}" if pv and ei == pv["eq"] and ti == pv["term"] else term(*t)) for ti, t in enumerate(e["terms"])) \
             + f" + e{e['lhs']}" + (f" + {e['const']!r}" if e["const"] else "")
@@ -285,6 +286,37 @@ def cond_of(M) -> float:
 # ---------------------------------------------------------------------------------------
 
 def gen_case(rng: Rng, force=None):
+    """a single- or (one case in five) multi-variant case"""
+    case = _gen_case_single(rng, force)
+    if case is None or not rng.chance(0.22) or case["mode"] == "mixed":
+        return case
+    return attach_variants(rng, case) or case
+
+
+def attach_variants(rng: Rng, case):
+    """turn the own-lag coefficient of one equation into a parameter with 2-3 variant values: one model object with that many parameter
+    variants, one plan, input data (targets, shocks) that differ across variants; every variant must itself be stable and identified"""
+    spec = json.loads(json.dumps(case["spec"]))
+    ei = rng.randint(0, len(spec["names"]) - 1)
+    c = spec["eqs"][ei]["terms"][0][0]
+    K = rng.choice([2, 2, 3])
+    spec["pvar"] = {"eq": ei, "term": 0, "values": [c, c / 2, -c / 4][:K]}
+    for k in range(1, K):
+        try:
+            mk, ok = build_model(variant_spec(spec, k))
+        except Exception:
+            ok = False
+        if not ok or plan_condition(mk, variant_spec(spec, k), case["N"], [tuple(c_) for c_ in case["targets"]],
+                                    [tuple(c_) for c_ in case["instruments"]]) > 1e3:
+            return None
+    try:
+        build_multi(spec)
+    except Exception:
+        return None
+    return dict(case, spec=spec, stages=None, stage_methods=None)
+
+
+def _gen_case_single(rng: Rng, force=None):
     """a JSON-able case: model spec, horizon, mode, method, background shocks, instruments with their true values, targets"""
     force = force or {}
     for _attempt in range(40):
@@ -518,11 +550,79 @@ def stages_of(case):
     return list(zip(st, ms))
 
 
+def variant_db(db, k, N, names):
+    """variant k of a multi-variant databox as a singleton databox (the series of `names`, presample included)"""
+    out = ir.Databox()
+    win = START - 3 >> START + (N - 1)
+    for nm in names:
+        a = np.asarray(db[nm].get_data(win), dtype=float).reshape(N + 3, -1)
+        out[nm] = ir.Series(start=START - 3, values=np.array(a[:, min(k, a.shape[1] - 1)]))
+    return out
+
+
+def merge_variants(base, dbs, N, names):
+    """a multi-variant databox whose variant k is `dbs[k]` (series of `names`); everything else from `base`"""
+    out = base.copy()
+    win = START - 3 >> START + (N - 1)
+    for nm in names:
+        cols = [np.asarray(d[nm].get_data(win), dtype=float).reshape(N + 3, -1)[:, 0] for d in dbs]
+        out[nm] = ir.Series(start=START - 3, values=np.column_stack(cols))
+    return out
+
+
+def run_impl_multi(case):
+    """a model with several PARAMETER variants and input data that differ across variants, simulated with ONE plan in ONE call; judged
+    variant by variant against the singleton model of that variant (its own first leg, targets, shocks).  Returns (subcase, result) per
+    variant, the result holding variant k of the multi-variant planned simulation as `sim2`."""
+    spec, N = case["spec"], case["N"]
+    K = len(spec["pvar"]["values"])
+    names, us, vs = all_names(spec)
+    singles = []
+    for k in range(K):
+        ck = dict(case, spec=variant_spec(spec, k), truth=[t + 0.5 * k for t in case["truth"]], stages=None, stage_methods=None)
+        sub, out = run_impl(ck)[0]
+        sub = dict(sub, variant=k, full=case)
+        singles.append((sub, out))
+    mm = build_multi(spec)
+    span = START >> START + (N - 1)
+    skey = case["scramble_seed"]
+    plan = getattr(ir, PLAN_CLASSES[form_key(skey, "class") % len(PLAN_CLASSES)])(mm, span)
+    for i, ((v, t), (sh, ts)) in enumerate(zip(case["targets"], case["instruments"])):
+        md = case["modes"][i] if case.get("modes") else case["mode"]
+        suf = "anticipated" if md == "ant" else "unanticipated"
+        if t == ts and form_key(skey, i, "mswap") % 2 == 0:
+            getattr(plan, "swap_" + suf)(dates_arg([t], N, form_key(skey, "m", i))[0], (v, sh))
+        else:
+            getattr(plan, "exogenize_" + suf)(dates_arg([t], N, form_key(skey, "mx", i))[0], v)
+            getattr(plan, "endogenize_" + suf)(dates_arg([ts], N, form_key(skey, "mn", i))[0], sh)
+    db2 = merge_variants(ir.Databox.steady(mm, span), [o["db2"] for _, o in singles], N, names + us + vs)
+    results = []
+    try:
+        sim2 = simulate(mm, db2, N, case["method"], plan=plan, key=form_key(skey, "mmethod"))
+        err = None
+    except Exception as e:
+        sim2, err = None, f"{type(e).__name__}: {str(e)[:120]}"
+    for k, (sub, out) in enumerate(singles):
+        o = {kk: vv for kk, vv in out.items() if kk not in ("sim2", "error", "canon", "canon_error")}
+        o["spellings"] = [f"variants:{K}"]
+        if err:
+            o["error"] = err
+        else:
+            o["sim2"] = variant_db(sim2, k, N, names + us + vs)
+            if "sim2" in out:
+                # variant locality: variant k of the multi-variant run = the singleton run of variant k
+                o["canon"], o["canon_site"] = out["sim2"], "variant-locality"
+        results.append((sub, o))
+    return results
+
+
 def run_impl(case):
     """the round trip on the implementation: one first leg, then one planned simulation per stage, all stages on the same
     `SimulationPlan` object (points added with status=True, removed with status=False between the simulations).
     Returns a list of (subcase, result) per stage; result has 'sim2' or 'error'."""
     spec, N, mode, method = case["spec"], case["N"], case["mode"], case["method"]
+    if spec.get("pvar"):
+        return run_impl_multi(case)
     m, ok = build_model(spec)
     names = spec["names"]
     span = START >> START + (N - 1)
@@ -671,7 +771,7 @@ def oracle_spelling(ctx: Ctx, case, r) -> bool:
     class aliases, swap_* for an exogenize/endogenize pair, keyword arguments, Span / list forms of the dates) and written canonically
     must give the same databox"""
     if "canon_error" in r:
-        ctx.fail(f"spelling-equivalence-{case['method']}", case,
+        ctx.fail(f"{r.get('canon_site', 'spelling-equivalence')}-{case['method']}", case,
                  f"runs as {r.get('spellings')} but the canonical spelling raises {r['canon_error']}")
         return False
     if "canon" not in r:
@@ -681,10 +781,10 @@ def oracle_spelling(ctx: Ctx, case, r) -> bool:
     scale = scale_of(case, r)
     for nm in names + us + vs:
         a, b = values(r["sim2"], nm, N), values(r["canon"], nm, N)
-        if not np.all((np.abs(a - b) <= 1e-12 * scale) | (np.isnan(a) & np.isnan(b))):
+        if not np.all((np.abs(a - b) <= (1e-9 if r.get("canon_site") else 1e-12) * scale) | (np.isnan(a) & np.isnan(b))):
             t = int(np.nanargmax(np.abs(a - b)))
-            ctx.fail(f"spelling-equivalence-{case['method']}", case,
-                     f"{nm}[{t}]: {a[t]!r} under {r.get('spellings')}, {b[t]!r} under the canonical spelling of the same request")
+            ctx.fail(f"{r.get('canon_site', 'spelling-equivalence')}-{case['method']}", case,
+                     f"{nm}[{t}]: {a[t]!r} under {r.get('spellings')}, {b[t]!r} under the canonical spelling / the singleton run of the same request")
             return False
     return True
 
@@ -892,7 +992,9 @@ def run_cases(ctx: Ctx, cases, with_model=True):
         except Exception as e:
             ctx.count("impl_first_leg_raises")
             continue
-        if len(staged) > 1:
+        if full["spec"].get("pvar"):
+            ctx.count(f"multi_variant_cases({len(staged)} parameter variants, data differ across variants)")
+        elif len(staged) > 1:
             ctx.count(f"staged_cases(one plan object, {len(staged)} simulations)")
         for f in (staged[-1][1].get("forms") or []):
             ctx.count(f"cond_plan_dates_as:{f}")
@@ -925,7 +1027,7 @@ def run_cases(ctx: Ctx, cases, with_model=True):
                 if oracle_case(ctx, case, r, cond) and oracle_spelling(ctx, case, r):
                     ctx.nontriv((case["method"], case["mode"], len(case["targets"]), len(case["spec"]["names"]),
                                  tuple(sorted(t for _, t in case["targets"])), tuple(sorted(t for _, t in case["instruments"])),
-                                 case.get("stage", 0)))
+                                 case.get("stage", 0), case.get("variant", 0)))
             ctx.sample({"stream": "cond", "mode": case["mode"], "method": case["method"], "targets": case["targets"],
                         "instruments": case["instruments"], "model": model_source(case["spec"]), "cond_M": cond,
                         "stage": case.get("stage", 0), "stages": full.get("stages")})
